@@ -16,7 +16,7 @@ import (
 
 func init() {
 	Register(&Scenario{Prop: "C03", Name: "authorised-writers-only", Run: scenC03, SoftParks: true, Weight: 1,
-		Rule: "creator/writer W, honest replica R, optionally an honest non-writer instance X (in half of the runs block fetches fail while R and X open the database - manifest, access controller, write list - and a failed Open is retried on the same instance), and an adversary peer holding its own keys (sometimes also listed as a colluding writer); write list kind drawn per run {explicit ids, wildcard, none given = creator only} and access controller {ipfs, simple}; 1-4 honest writes, then 2-6 hostile attempts, each a cell of (forgery: own non-writer identity | copied writer id | copied identity block | identity block + swapped key | any of the 16 mixes of victim's / adversary's identity public key, id signature, public-key signature and entry key under the victim's id) x (route: announced head | direct-channel head exchange | manual Sync | ancestor of a colluding writer's valid entry) x (position: on top of the current heads | detached | far-ahead clock); oracle at every quiescent step on every honest replica: no entry crafted without a writer's signing key is in the log, visible state equals the LWW replay of honest entries; a non-writer's local write returns an error and changes nothing; with the wildcard only the positive direction (the outsider's entry is merged) is checked; non-trivial = >=2 distinct (forgery, route) cells were delivered to a replica that had replicated >=1 honest entry"})
+		Rule: "creator/writer W, honest replica R, optionally an honest non-writer instance X (in half of the runs block fetches fail while R and X open the database - manifest, access controller, write list - and a failed Open is retried on the same instance), and an adversary peer holding its own keys (sometimes also listed as a colluding writer); write list kind drawn per run {explicit ids, wildcard, none given = creator only} and access controller {ipfs, simple}; 1-4 honest writes, then 2-6 hostile attempts, each a cell of (forgery: own non-writer identity | copied writer id | copied identity block | identity block + swapped key | any of the 16 mixes of victim's / adversary's identity public key, id signature, public-key signature and entry key under the victim's id) x (route: announced head | direct-channel head exchange | manual Sync | predecessor (next) of a colluding writer's valid entry | named only in that entry's refs); in half of the runs the receiver finally restarts and loads what it had persisted x (position: on top of the current heads | detached | far-ahead clock); oracle at every quiescent step on every honest replica: no entry crafted without a writer's signing key is in the log, visible state equals the LWW replay of honest entries; a non-writer's local write returns an error and changes nothing; with the wildcard only the positive direction (the outsider's entry is merged) is checked; non-trivial = >=2 distinct (forgery, route) cells were delivered to a replica that had replicated >=1 honest entry"})
 }
 
 func scenC03(k *K) {
@@ -128,8 +128,8 @@ func scenC03(k *K) {
 		if collude && kind == "own" {
 			kind = "copied-id" // the colluder's own identity is a legitimate writer
 		}
-		route := []string{"topic", "direct", "sync", "ancestor"}[k.C.Intn(4)]
-		if route == "ancestor" && !collude {
+		route := []string{"topic", "direct", "sync", "ancestor", "ref"}[k.C.Intn(5)]
+		if (route == "ancestor" || route == "ref") && !collude {
 			route = []string{"topic", "direct", "sync"}[k.C.Intn(3)]
 		}
 		ident, priv := adv.ForgedIdentity(kind, victimID)
@@ -172,9 +172,14 @@ func scenC03(k *K) {
 		k.W.Stat("forge:" + desc)
 		heads := []*entry.Entry{fe}
 		deliver := route
-		if route == "ancestor" {
+		if route == "ancestor" || route == "ref" {
 			// a valid entry by the colluding writer that names the forged entry as predecessor
-			child, err := adv.Craft("own", adv.Own, nil, c.Addr, payload, []cid.Cid{fe.Hash}, maxT+1)
+			// (next), or only as a skip-list reference (refs), which loads follow
+			nx, rf := []cid.Cid{fe.Hash}, []cid.Cid{}
+			if route == "ref" {
+				nx, rf = []cid.Cid{}, []cid.Cid{fe.Hash}
+			}
+			child, err := adv.CraftRefs("own", adv.Own, nil, c.Addr, payload, nx, rf, maxT+1)
 			if err != nil {
 				continue
 			}
@@ -195,6 +200,16 @@ func scenC03(k *K) {
 	}
 	k.Settle(90*time.Second, 3000, nil)
 	check("rest")
+	// the receiver restarts and loads what it had persisted: still nothing forged
+	if k.C.Chance(1, 2) {
+		k.W.Stat("route:restart-load")
+		k.Invariant = nil
+		c.Down(1, k.C.Chance(1, 2))
+		if err := c.Up(1); err == nil {
+			k.Settle(60*time.Second, 2000, nil)
+			check("after-restart")
+		}
+	}
 	if listKind == "wildcard" {
 		// positive direction: what an outsider wrote and delivered with its own identity is merged
 		have := LogHashSet(c.Stores[1])
